@@ -213,6 +213,13 @@ theorem invoke_raised (t : Target) (f : Callable) (m q : PyVal) (cls text : Stri
   | false => simp [invoke, hb, hbody, handleCallExc, methodExceptionFault]
   | true => simp [invoke, hb, hbody, handleCallExc, methodExceptionFault, hdp rfl]
 
+/-- An exception that is not an instance of `Exception` (`SystemExit`, `KeyboardInterrupt`, …) is reported like any
+    other method exception: the last handler around the call in `_dispatch` is a bare `except:`. -/
+theorem invoke_raisedBase (t : Target) (f : Callable) (m q : PyVal) (cls text : String) (dp : Nat)
+    (hb : binds f.sig q = true) (hbody : f.body q = .raisedBase cls text dp) :
+    invoke t (some f) m q = (.fault codeInternal (msgServerError cls text), [.call t m q]) := by
+  simp [invoke, hb, hbody, handleCallExc, methodExceptionFault]
+
 /-- The parameters the callable receives for the `params` the client sent. -/
 def serverParams (p : PyVal) : PyVal := if p.truthy then p.normalise else .list []
 
